@@ -101,8 +101,14 @@ impl Prop for C08 {
                 // whenever INPUT is reached the interpreter must ask: also right after a run that
                 // ended (normally or by failing while a reply was being stored)
                 if !o.capped && o.sess.state() == crate::sess::St::Idle {
-                    if let Some(call) = o.sess.apply(&crate::sess::Op::Line("INPUT Q9".into())) {
-                        ctx.calls(1);
+                    // (a fresh line holding an INPUT is added and jumped to: program context, no immediate INPUT)
+                    let added = o.sess.apply(&crate::sess::Op::Line("99990 INPUT Q9".into()));
+                    if added.as_ref().map(|c| c.err().is_some() || c.panicked().is_some()).unwrap_or(true) {
+                        return Some(Violation::new("C08/harness", "probe line rejected", format!("{:?}", added.map(|c| c.res))));
+                    }
+                    let calls = o.sess.line_and_settle("GOTO 99990", 4);
+                    if let Some(call) = calls.last().cloned() {
+                        ctx.calls(1 + calls.len() as u64);
                         if let Some(p) = call.panicked() {
                             return Some(Violation::new("C08/panic", format!("panic@{p}"), format!("immediate INPUT after the run unwound: {p}")));
                         }
@@ -111,7 +117,7 @@ impl Prop for C08 {
                             return Some(Violation::new(
                                 "C08/input-did-not-ask",
                                 format!("state={:?} after the run ended with {:?}", call.state, o.error),
-                                format!("an immediate INPUT after the run (which ended with {:?}) did not ask: state {:?}, records {:?}, error {:?}", o.error, call.state, call.recs, call.err()),
+                                format!("an INPUT reached right after the run (which ended with {:?}) did not ask: state {:?}, records {:?}, error {:?}", o.error, call.state, call.recs, call.err()),
                             ));
                         }
                         ctx.count("reach.post_run_input_asks");
